@@ -1,6 +1,7 @@
 import IastModel.Rewriter.Visitor
 import IastModel.Spec.Coverage
 import IastModel.Lemmas.Monad
+import IastModel.Lemmas.CovBlock
 /-
   C04 — every enabled operation in blocks is instrumented.  Local coverage lemmas: the `+` transform
   never declines a sum that has an operand which is neither a literal sum nor a `+` chain, and the
@@ -38,5 +39,46 @@ theorem plus_occurrence_iff (cfg : Config) (l r : Node) (sp : Span) (h : cfg.plu
     (ownOcc cfg (.bin "+" l r sp)).isSome = !(litSum l && litSum r) := by
   simp [ownOcc, h]
   cases litSum l <;> cases litSum r <;> simp
+
+/-! ### coverage of `+` and template literals through the visitors
+
+`R cfg d sp0 n` counts the `+` / template occurrences that the specification (`ownOcc`, written from the
+property text) requires for the hook site `(d, sp0)` in the positions of `n` that the operation visitor
+reaches — everything but the operands of `delete`, the substitutions of a template that has a literal
+one, nested blocks and arrow functions (those belong to the block visitor) and optional chains (not
+claimed here).  `cq (qAt d sp0) t` counts the hook calls of `t` named `d` with span `sp0`. -/
+
+/-- the specification's `+` occurrence is what `R` counts for a `+` node -/
+theorem required_plus_is_counted (cfg : Config) (op : String) (l r : Node) (sp : Span) (o : Occ)
+    (h : ownOcc cfg (.bin op l r sp) = some o) : reqOwn cfg o.dst o.sp (.bin op l r sp) = 1 :=
+  reqOwn_spec_bin cfg op l r sp o h
+
+/-- the specification's template occurrence is what `R` counts for a template node -/
+theorem required_template_is_counted (cfg : Config) (exprs qs : List Node) (sp : Span) (o : Occ)
+    (h : ownOcc cfg (.tpl exprs qs sp) = some o) : reqOwn cfg o.dst o.sp (.tpl exprs qs sp) = 1 :=
+  reqOwn_spec_tpl cfg exprs qs sp o h
+
+/-- the operation visitor instruments every required `+` / template occurrence it reaches, unless it runs
+    out of fuel (`fuelOut`, reported by the driver for every input) -/
+theorem visit_instruments_required_plus_and_templates (cfg : Config) (d : String) (sp0 : Span)
+    (f : Nat) (root : Bool) (n : Node) (s : St) (h0 : ns n = 0) (ht : targetsOk n = true)
+    (hs : s.status ≠ .cancelled) (hfo : (visit cfg f root n s).2.fuelOut = false) :
+    R cfg d sp0 n ≤ cq (qAt d sp0) (visit cfg f root n s).1 :=
+  (visit_cover cfg (okCfg cfg) (cfgOk_dsts cfg) d sp0 f root n s h0 ht hs hfo).1
+
+/-- **C04 for `+` and template literals, per block** (PARTIAL with respect to the property: method calls,
+    `+=` and occurrences inside optional chains are decided by the coverage oracle, and "every block of
+    the file is entered" is not part of the statement).  Every block statement the block visitor enters —
+    at any depth, in any state that is not cancelled, the block not mentioning the hook namespace and
+    with parser-shaped `+=` targets — comes back, unless the run is cancelled or out of fuel, with at
+    least one hook call of the expected name and span for every required occurrence in its statements. -/
+theorem entered_block_instruments_required_plus_and_templates_partial (cfg : Config) (d : String) (sp0 : Span)
+    (opFuel f : Nat) (ss : List Node) (sp : Span) (s : St) (hs : s.status ≠ .cancelled)
+    (h0 : nsL ss = 0) (hb : badL ss = 0)
+    (hfin : (blockVisit cfg opFuel (f + 1) (.block ss sp) s).2.status ≠ .cancelled)
+    (hfo : (blockVisit cfg opFuel (f + 1) (.block ss sp) s).2.fuelOut = false) :
+    RL cfg d sp0 ss ≤ cq (qAt d sp0) (blockVisit cfg opFuel (f + 1) (.block ss sp) s).1 :=
+  block_cover (okCfg cfg) cfg (cfgOk_dsts cfg) d sp0 opFuel f ss sp s hs
+    (by rw [good_block]; simp [h0, hb]) hfin hfo
 
 end IastModel.C04
